@@ -6,6 +6,7 @@ import (
 	"fmt"
 	"math/rand"
 	"strings"
+	"time"
 
 	ipfslog "berty.tech/go-ipfs-log"
 	"berty.tech/go-ipfs-log/entry"
@@ -649,16 +650,18 @@ func c12PlaceCase(run *evid.Run, i int, j *Journal) {
 			var loaded *ipfslog.IPFSLog
 			var err error
 			heads := l.Heads().Slice()
-			switch loader {
-			case "manifest":
-				loaded, err = w2.LoadManifest(mhc, 0, &hx.LoadOpts{})
-			case "json":
-				loaded, err = w2.LoadJSON(l.ToJSONLog(), 0, &hx.LoadOpts{})
-			case "entries":
-				loaded, err = w2.LoadEntries(heads, 0, &hx.LoadOpts{})
-			case "hash":
-				loaded, err = w2.LoadHash(heads[0].GetHash(), 0, &hx.LoadOpts{})
-			}
+			returned, dump := callHang(cs, time.Second, func() {
+				switch loader {
+				case "manifest":
+					loaded, err = w2.LoadManifest(mhc, 0, &hx.LoadOpts{})
+				case "json":
+					loaded, err = w2.LoadJSON(l.ToJSONLog(), 0, &hx.LoadOpts{})
+				case "entries":
+					loaded, err = w2.LoadEntries(heads, 0, &hx.LoadOpts{})
+				case "hash":
+					loaded, err = w2.LoadHash(heads[0].GetHash(), 0, &hx.LoadOpts{})
+				}
+			})
 			run.Count("placement_loads", 1)
 			run.Count("placement_"+pos, 1)
 			d := det("position", pos, "loader", loader, "edits", item.Edits)
@@ -666,6 +669,16 @@ func c12PlaceCase(run *evid.Run, i int, j *Journal) {
 				m := histSample(h)
 				m["placement"] = map[string]any{"replica": r, "position": pos, "victim": victim, "edits": item.Edits, "loader": loader, "block_hex": item.RawHex[:minInt(len(item.RawHex), 600)]}
 				return m
+			}
+			if !returned {
+				if dump == "" {
+					run.Inconclusive("placement load did not return within the wall-clock cap")
+				} else {
+					w := wit()
+					w["goroutine_dump"] = clipStr(dump, 8000)
+					run.Violate("C12/load-hung", d, w, "loading a log with one hostile block (%s at %s) never returned although the store is quiescent", item.Edits, pos)
+				}
+				continue
 			}
 			if err != nil || loaded == nil {
 				run.Violate("C12/load-failed", d, wit(), "loading a log with one hostile block (%s at %s) failed instead of skipping it: %v", item.Edits, pos, err)
